@@ -432,6 +432,20 @@ fn core_grid(thorough: bool) -> Vec<Case> {
                 }
             }
         }
+        // many source blocks (the SBN field is 8, 16, 24 or 32 bits wide depending on the scheme)
+        {
+            let (e, b, len) = match scheme {
+                Scheme::Raptor => (1u16, 4u16, 1100usize),
+                Scheme::RaptorQ => (1, 1, 255),
+                _ => (1, 1, 300),
+            };
+            for inband_fti in [true, false] {
+                let mut o = ObjSpec::simple(len, 3);
+                o.oti = Some(OtiSpec::new(scheme, e, b, if scheme == Scheme::NoCode { 0 } else { 1 }, inband_fti));
+                let s = SessSpec::basic(OtiSpec::new(Scheme::NoCode, 1424, 64, 0, true));
+                v.push(Case { sess: s, objs: vec![o], receive_once: true, fs: false, rx_variant: 0 });
+            }
+        }
         // around the scheme's maximum transfer length, smallest (E, B)
         let (e, b) = if scheme == Scheme::Raptor { (1u16, 4u16) } else { (1u16, 1u16) };
         let oti = OtiSpec::new(scheme, e, b, if scheme == Scheme::NoCode { 0 } else { 1 }, true);
